@@ -47,7 +47,19 @@ def isScope : Shape → Bool
   | .scope _ _ _ => true
   | _ => false
 
-/-! ## layer 1: data-stack heights, frames, fork discipline -/
+/-! ## layer 1: data-stack heights, frames, fork discipline, variable-slot ranges -/
+
+/-- the `(id, number of variable slots)` of every `scope` instruction, in code order -/
+def scopeTab (code : Array Shape) : List (Int × Nat) :=
+  code.toList.filterMap fun
+    | .scope id vars _ => some (id, vars.toNat)
+    | _ => none
+
+/-- a variable operand `[id, i]` is in range: scope `id` exists and has more than `i` slots -/
+def slotOK (tab : List (Int × Nat)) (id i : Int) : Bool :=
+  match tab.lookup id with
+  | some n => decide (0 ≤ i) && decide (i.toNat < n)
+  | none => false
 
 /-- height (number of owned data-stack entries) with which the function whose `scope` instruction
     is at `t` is entered: its closure arguments and its input; the main program (pc 0) also finds
@@ -62,111 +74,139 @@ def entryH (code : Array Shape) (nvars : Nat) (t : Nat) : Option Nat :=
 def entryHI (code : Array Shape) (nvars : Nat) (t : Int) : Option Nat :=
   if 0 ≤ t then entryH code nvars t.toNat else none
 
-/-- the abstract transfer function: instruction `ins` at `pc` entered with `h` owned entries.
+/-- arguments the path-tracking tail of a native call reads: `args[1]` for `_index`, `args[2]` for
+    `_slice`, `args[0]` for `getpath` -/
+def nativeNeed : NativeKind → Int
+  | .index => 2 | .slice => 3 | .getpath => 1 | .other => 0
+
+/-- the abstract state at a pc: `h` = number of data-stack entries the current activation owns;
+    `pend` = a fork is certainly pending (pushed earlier on every path to this pc in normal mode and
+    not yet backtracked into).  `pend` is only needed for a `forklabel` executed with `h = 0` (the
+    hand-written `_modify`): re-entered after an error it pops twice, which is harmless only if it
+    cannot be the oldest fork. -/
+structure Abs where
+  h : Nat
+  pend : Bool
+  deriving DecidableEq, Repr, Inhabited
+
+/-- the abstract transfer function: instruction `ins` at `pc` entered in abstract state `a`.
     `none` = rejected (a pop below the activation's own entries, an operand of the wrong form, …);
-    `some succs` = the list of (pc, height) at which control may continue IN THIS ACTIVATION:
+    `some succs` = the list of (pc, state) at which control may continue IN THIS ACTIVATION:
     fall-through, jump target, and for a fork-like instruction the target entered when the fork is
     backtracked into.  A call continues after the callee returns (every `ret` is checked to own
     exactly one entry, the result). -/
-def step1 (code : Array Shape) (nvars : Nat) (pc : Nat) (h : Nat) : Shape → Option (List (Int × Nat))
-  | .nop => some [((pc : Int) + 1, h)]
-  | .push => some [((pc : Int) + 1, h + 1)]
-  | .pop => if 1 ≤ h then some [((pc : Int) + 1, h - 1)] else none
-  | .dup => if 1 ≤ h then some [((pc : Int) + 1, h + 1)] else none
-  | .const => if 1 ≤ h then some [((pc : Int) + 1, h)] else none
-  | .load _ _ => some [((pc : Int) + 1, h + 1)]
-  | .store _ _ => if 1 ≤ h then some [((pc : Int) + 1, h - 1)] else none
-  | .object n => if 2 * n.toNat ≤ h then some [((pc : Int) + 1, h - 2 * n.toNat + 1)] else none
-  | .append _ _ => if 1 ≤ h then some [((pc : Int) + 1, h - 1)] else none
-  | .fork t => some [((pc : Int) + 1, h), (t, h)]
-  | .forktrybegin t => if 1 ≤ h then some [((pc : Int) + 1, h), (t, h)] else none
-  | .forktryend => some [((pc : Int) + 1, h)]
-  | .forkalt t => some [((pc : Int) + 1, h), (t, h)]
-  | .forklabel _ _ => if 1 ≤ h then some [((pc : Int) + 1, h)] else none
+def step1 (code : Array Shape) (tab : List (Int × Nat)) (nvars : Nat) (pc : Nat) (a : Abs) : Shape → Option (List (Int × Abs))
+  | .nop => some [((pc : Int) + 1, a)]
+  | .push => some [((pc : Int) + 1, { a with h := a.h + 1 })]
+  | .pop => if 1 ≤ a.h then some [((pc : Int) + 1, { a with h := a.h - 1 })] else none
+  | .dup => if 1 ≤ a.h then some [((pc : Int) + 1, { a with h := a.h + 1 })] else none
+  | .const => if 1 ≤ a.h then some [((pc : Int) + 1, a)] else none
+  | .load id i => if slotOK tab id i then some [((pc : Int) + 1, { a with h := a.h + 1 })] else none
+  | .store id i => if 1 ≤ a.h ∧ slotOK tab id i = true then some [((pc : Int) + 1, { a with h := a.h - 1 })] else none
+  | .object n => if 2 * n.toNat ≤ a.h then some [((pc : Int) + 1, { a with h := a.h - 2 * n.toNat + 1 })] else none
+  | .append id i => if 1 ≤ a.h ∧ slotOK tab id i = true then some [((pc : Int) + 1, { a with h := a.h - 1 })] else none
+  | .fork t => some [((pc : Int) + 1, { a with pend := true }), (t, a)]
+  | .forktrybegin t => if 1 ≤ a.h then some [((pc : Int) + 1, { a with pend := true }), (t, a)] else none
+  | .forktryend => some [((pc : Int) + 1, { a with pend := true })]
+  | .forkalt t => some [((pc : Int) + 1, { a with pend := true }), (t, a)]
+  | .forklabel id i => if (1 ≤ a.h ∨ a.pend = true) ∧ slotOK tab id i = true then some [((pc : Int) + 1, { a with pend := true })] else none
   | .backtrack => some []
-  | .jump t => some [(t, h)]
-  | .jumpifnot t => if 1 ≤ h then some [((pc : Int) + 1, h - 1), (t, h - 1)] else none
-  | .index => if 1 ≤ h then some [((pc : Int) + 1, h)] else none
-  | .indexarray => if 1 ≤ h then some [((pc : Int) + 1, h)] else none
+  | .jump t => some [(t, a)]
+  | .jumpifnot t => if 1 ≤ a.h then some [((pc : Int) + 1, { a with h := a.h - 1 }), (t, { a with h := a.h - 1 })] else none
+  | .index => if 1 ≤ a.h then some [((pc : Int) + 1, a)] else none
+  | .indexarray => if 1 ≤ a.h then some [((pc : Int) + 1, a)] else none
   | .call t =>
     match entryHI code nvars t with
-    | some k => if k ≤ h then some [((pc : Int) + 1, h - k + 1)] else none
+    | some k => if k ≤ a.h then some [((pc : Int) + 1, { a with h := a.h - k + 1 })] else none
     | none => none
   | .callNative kind argc =>
-    let need : Int := match kind with | .index => 2 | .slice => 3 | .getpath => 1 | .other => 0
-    if need ≤ argc ∧ argc ≤ 32 ∧ argc.toNat + 1 ≤ h then some [((pc : Int) + 1, h - argc.toNat)] else none
+    if nativeNeed kind ≤ argc ∧ argc ≤ 32 ∧ argc.toNat + 1 ≤ a.h then some [((pc : Int) + 1, { a with h := a.h - argc.toNat })] else none
   | .callrec t =>
     match entryHI code nvars t with
-    | some k => if k = h then some [] else none
+    | some k => if k = a.h then some [] else none
     | none => none
   | .pushpc t =>
     match entryHI code nvars t with
-    | some k => if k = 1 then some [((pc : Int) + 1, h + 1)] else none
+    | some k => if k = 1 then some [((pc : Int) + 1, { a with h := a.h + 1 })] else none
     | none => none
-  | .callpc => if 2 ≤ h then some [((pc : Int) + 1, h - 1)] else none
-  | .scope _ _ _ => some [((pc : Int) + 1, h)]
-  | .ret => if h = 1 then some [] else none
-  | .iter => if 1 ≤ h then some [((pc : Int) + 1, h)] else none
-  | .expbegin => some [((pc : Int) + 1, h)]
-  | .expend => some [((pc : Int) + 1, h)]
-  | .pathbegin => if 1 ≤ h then some [((pc : Int) + 1, h)] else none
-  | .pathend => if 2 ≤ h then some [((pc : Int) + 1, h - 1)] else none
+  | .callpc => if 2 ≤ a.h then some [((pc : Int) + 1, { a with h := a.h - 1 })] else none
+  | .scope id vars _ => if 0 ≤ vars ∧ tab.lookup id = some vars.toNat then some [((pc : Int) + 1, a)] else none
+  | .ret => if a.h = 1 then some [] else none
+  | .iter => if 1 ≤ a.h then some [((pc : Int) + 1, a)] else none
+  | .expbegin => some [((pc : Int) + 1, a)]
+  | .expend => some [((pc : Int) + 1, a)]
+  | .pathbegin => if 1 ≤ a.h then some [((pc : Int) + 1, a)] else none
+  | .pathend => if 2 ≤ a.h then some [((pc : Int) + 1, { a with h := a.h - 1 })] else none
   | .bad => none
 
-abbrev Ann := Array (Option Nat)
+abbrev Ann := Array (Option Abs)
+
+/-- the annotation `b` at a successor accepts the produced state `s`: it relies on at most the
+    produced number of owned entries (heights are lower bounds; they differ only after the
+    hand-written `load; call _break` of `_modify`, which never falls through), and it claims a
+    pending fork only if one is produced -/
+def Abs.accepts (b s : Abs) : Bool := decide (b.h ≤ s.h) && (!b.pend || s.pend)
 
 /-- one successor is consistent with the annotation: in range, not a function entry (those are
-    entered by call / callrec / callpc only), annotated with exactly the produced height -/
-def succOK (code : Array Shape) (ann : Ann) (s : Int × Nat) : Bool :=
+    entered by call / callrec / callpc only), annotated with a state that accepts the produced one -/
+def succOK (code : Array Shape) (ann : Ann) (s : Int × Abs) : Bool :=
   decide (0 ≤ s.1) && decide (s.1.toNat < code.size) &&
-  (match ann[s.1.toNat]? with | some (some h') => h' == s.2 | _ => false) &&
+  (match ann[s.1.toNat]? with | some (some b) => b.accepts s.2 | _ => false) &&
   (match code[s.1.toNat]? with | some i => !isScope i | none => false)
 
-def verifyAt (code : Array Shape) (nvars : Nat) (ann : Ann) (pc : Nat) : Bool :=
+/-- the annotation of a function entry: its entry height, no fork known to be pending -/
+def entryAbs (code : Array Shape) (nvars : Nat) (pc : Nat) : Option Abs :=
+  (entryH code nvars pc).map fun h => { h := h, pend := false }
+
+def verifyAt (code : Array Shape) (tab : List (Int × Nat)) (nvars : Nat) (ann : Ann) (pc : Nat) : Bool :=
   match code[pc]?, ann[pc]? with
-  | some ins, some (some h) =>
-    (if isScope ins then entryH code nvars pc == some h else true) &&
-    (match step1 code nvars pc h ins with
+  | some ins, some (some a) =>
+    (if isScope ins then entryAbs code nvars pc == some a else true) &&
+    (match step1 code tab nvars pc a ins with
      | none => false
      | some succs => succs.all (succOK code ann))
   | some ins, some none => !isScope ins
   | _, _ => false
 
-/-- the verifier: the annotation has the size of the code, pc 0 is a function entry, the last
-    instruction is `ret`, every function entry carries its entry height, every annotated pc is
-    accepted by the transfer function and its successors carry the produced heights -/
+/-- the verifier: the annotation has the size of the code, pc 0 is a function entry without closure
+    parameters, the last instruction is `ret`, every function entry carries its entry state, every
+    annotated pc is accepted by the transfer function and its successors carry the produced states -/
 def verify (code : Array Shape) (nvars : Nat) (ann : Ann) : Bool :=
   ann.size == code.size &&
-  (match code[0]? with | some i => isScope i | none => false) &&
+  (entryH code nvars 0 == some (nvars + 1)) &&
   (match code.size with
    | 0 => false
    | n + 1 => match code[n]? with | some .ret => true | _ => false) &&
-  (List.range code.size).all (verifyAt code nvars ann)
+  (List.range code.size).all (verifyAt code (scopeTab code) nvars ann)
 
 /-! ### inference (not trusted: only `verify` of its result matters) -/
 
-def inferLoop (code : Array Shape) (nvars : Nat) : Nat → List Nat → Ann → Ann
+def inferLoop (code : Array Shape) (tab : List (Int × Nat)) (nvars : Nat) : Nat → List Nat → Ann → Ann
   | 0, _, ann => ann
   | _, [], ann => ann
   | fuel + 1, pc :: wl, ann =>
     match code[pc]?, ann[pc]? with
-    | some ins, some (some h) =>
-      match step1 code nvars pc h ins with
-      | none => inferLoop code nvars fuel wl ann
+    | some ins, some (some a) =>
+      match step1 code tab nvars pc a ins with
+      | none => inferLoop code tab nvars fuel wl ann
       | some succs =>
-        let r := succs.foldl (fun (acc : List Nat × Ann) (s : Int × Nat) =>
+        let r := succs.foldl (fun (acc : List Nat × Ann) (s : Int × Abs) =>
           if 0 ≤ s.1 then
             match acc.2[s.1.toNat]? with
             | some none => (s.1.toNat :: acc.1, acc.2.set! s.1.toNat (some s.2))
-            | _ => acc
+            | some (some b) =>
+              -- meet (a join point reached with fewer owned entries / without a pending fork): revisit
+              if b.accepts s.2 then acc
+              else (s.1.toNat :: acc.1, acc.2.set! s.1.toNat (some { h := min b.h s.2.h, pend := b.pend && s.2.pend }))
+            | none => acc
           else acc) (wl, ann)
-        inferLoop code nvars fuel r.1 r.2
-    | _, _ => inferLoop code nvars fuel wl ann
+        inferLoop code tab nvars fuel r.1 r.2
+    | _, _ => inferLoop code tab nvars fuel wl ann
 
 def infer (code : Array Shape) (nvars : Nat) : Ann :=
   let entries := (List.range code.size).filter fun pc => match code[pc]? with | some i => isScope i | none => false
-  let ann0 : Ann := entries.foldl (fun a pc => a.set! pc (entryH code nvars pc)) (Array.replicate code.size none)
-  inferLoop code nvars (2 * code.size + 2) entries ann0
+  let ann0 : Ann := entries.foldl (fun a pc => a.set! pc (entryAbs code nvars pc)) (Array.replicate code.size none)
+  inferLoop code (scopeTab code) nvars (16 * code.size + 16) entries ann0
 
 def checkShapes (code : Array Shape) (nvars : Nat) : Bool := verify code nvars (infer code nvars)
 
@@ -255,6 +295,6 @@ def parseDump (tok : String) : Option Opt.Instr :=
 /-- a diagnostic for the driver: the first pc the verifier rejects -/
 def firstBad (code : Array Shape) (nvars : Nat) : Option Nat :=
   let ann := infer code nvars
-  (List.range code.size).find? fun pc => !verifyAt code nvars ann pc
+  (List.range code.size).find? fun pc => !verifyAt code (scopeTab code) nvars ann pc
 
 end Gojq.SafeVM
